@@ -129,11 +129,23 @@ def prior_job(interp, c, case):
                 c.assume(cond)
     # the prior dictionary need not list the parameters in the order of the parameter vector
     prior = dict(reversed(list(prior.items())))
+    # the library itself builds several interfaces from one prior dictionary (InferenceSetup, then the sampler set-up): an earlier interface
+    # over the same dictionary object must leave it - and so every later interface - as it was
+    snapshot = {k_: list(v_) for k_, v_ in prior.items()}
+    try:
+        P.ns["PIDInterface"](["p%d" % i for i in range(len(fams))], _StubModel(), prior)
+    except (ValueError, ZeroDivisionError, TypeError):
+        pass
     pid = P.ns["PIDInterface"](["p%d" % i for i in range(len(fams))], _StubModel(), prior)
     tag = "+".join("%s%s%s" % (f, "" if shapes[i] == "sym" else list(shapes[i]), "/positive" if positives[i] else "")
                    for i, f in enumerate(fams))
     rp = dict(fams=list(fams), shapes=[s if s == "sym" else list(s) for s in shapes], positives=list(positives),
               region=region)
+    same = list(prior) == list(snapshot) and all(len(prior[k_]) == len(snapshot[k_]) and all(a_ is b_ or (not is_sym(a_) and a_ == b_) for a_, b_ in zip(prior[k_], snapshot[k_]))
+                                                 for k_ in snapshot)
+    _report(c, same, "%s: building interfaces leaves the caller's prior dictionary as it was (now %s)" % (
+        "+".join(fams), {k_: [str(x_)[:12] for x_ in v_] for k_, v_ in prior.items()}), "prior dictionary modified by the interface", dict(
+        fams=list(fams), shapes=[s_ if s_ == "sym" else list(s_) for s_ in shapes], positives=list(positives), region=region), syms)
     try:
         lp = pid.check_prior({"p%d" % i: x for i, x in enumerate(xs)})
     except (ValueError, ZeroDivisionError, TypeError) as e:
